@@ -1,8 +1,12 @@
 (** Properties/C09.v — "A reload sees exactly the saved modifications and nothing else changes".
     Only statements, each closed by [exact] of a lemma proved in Storage/Proofs.v.
-    [ser], [parse_obj], [member] are the serialiser / reader of primitives (Section functions of the model,
-    quantified here); their round trip is an explicit premise where it is needed (it is property C04). *)
+    The object model is the shared one ([PdfV.Syn.Prim.prim]); where a theorem is about what a reload reads, the
+    serialiser is [PdfV.Syn.Serialize.ser] and the reader [PdfV.Syn.Parser.parse_indirect_object] (as
+    [Storage.Syntax.parse_obj]) and their round trip is the C04 theorem, not a premise.  Elsewhere [ser], [parse_obj],
+    [member] stay quantified (the theorems hold for any). *)
 From PdfV Require Import Base.Prelude Storage.Prim Storage.Model Storage.Proofs Storage.Syntax Storage.Run Storage.Tables.
+From PdfV Require Import Gen.Generated Storage.Reload Storage.LoadProofs.
+From PdfV Require Syn.Serialize Syn.Parser Syn.Spells Syn.SerProofs.
 
 (** Before any save, every read through the same open document already reflects each write: the reference
     handed back names the caller's object (same number — also for objects stored in object streams), reads of
@@ -70,24 +74,76 @@ Theorem C09_save_layout : forall ser s tr s' tr',
   (exists xpos aw bw data xd xs,
      write_stream (refs s') (lenN (refs s')) = Ok (aw, bw, data) /\
      nthN (refs s') (lenN (refs s1)) = Some (XRaw xpos 0) /\
-     ser (PStream xd (SPending data)) = Ok xs /\
+     ser (PStreamData xd data) = Ok xs /\
      (exists pre, backend s' = pre ++ obj_header (lenN (refs s1)) 0 ++ xs ++ kw_endobj_nl ++ startxref_tail xpos /\
                   lenN pre = start s + xpos)) /\
   start s' = start s /\ cache s' = [].
 Proof. exact save_layout. Qed.
 Print Assumptions C09_save_layout.
 
-(** Reload: a state over the saved bytes whose table is the saved table (C09_xref_roundtrip) resolves every
-    written reference — the very number the caller used, any generation — to the last value written ... *)
-Theorem C09_reload : forall ser parse_obj member s tr s' tr' s3,
-  (forall pre id g p body post, ser p = Ok body ->
-     parse_obj (pre ++ obj_bytes id g body ++ post) (lenN pre) = Ok (id, g, p)) ->
-  wf_st s -> save ser s tr = Ok (s', tr', None) ->
+(** The object framing of save is read back by the parser: `id gen obj\n` ++ serialize(v) ++ `\nendobj\n`, wherever
+    it sits in the buffer and whatever follows, parses (parse_indirect_object, strict) to (id, gen, v) for every value
+    of C04's storable domain.  This was the oracle premise [parse_ser] of C09_reload; it is now a theorem — the
+    composition of C04 ([PdfV.Syn.SerProofs.ser_spells]) with C03 ([parse_rendered]) on the framing. *)
+Theorem C09_parse_ser : forall pre id g v post,
+  SerProofs.storable v -> Spells.vdepth v <= MAX_DEPTH -> id < 2 ^ 64 -> g < 2 ^ 64 ->
+  forall body, Serialize.ser v = Ok body -> parse_obj (pre ++ obj_bytes id g body ++ post) (lenN pre) = Ok (id, g, v).
+Proof. exact parse_obj_framed. Qed.
+Print Assumptions C09_parse_ser.
+
+(** Reload: a state over the saved bytes whose table is the saved table (C09_xref_roundtrip, C09_load_table) resolves
+    every written reference — the very number the caller used, any generation — to the last value written.  No premise
+    about the parser: the serialiser is [Syn.Serialize.ser], the reader [Syn.Parser.parse_indirect_object]
+    ([Storage.Syntax.parse_obj]), the values those of C04's [storable] within the parser's nesting limit. *)
+Theorem C09_reload : forall member s tr s' tr' s3,
+  wf_st s -> save Serialize.ser s tr = Ok (s', tr', None) ->
   changes s3 = [] -> backend s3 = backend s' -> start s3 = start s ->
   (forall i, i < lenN (refs s') -> nthN (refs s3) i = nthN (refs s') i) ->
-  forall id p g g', clookup (changes (save_pre s tr)) id = Some (p, g) -> resolve parse_obj member s3 (id, g') = Ok p.
-Proof. exact reload_sees_writes. Qed.
+  forall id p g g', clookup (changes (save_pre s tr)) id = Some (p, g) ->
+    SerProofs.storable p -> Spells.vdepth p <= MAX_DEPTH -> id < 2 ^ 64 -> g < 2 ^ 64 ->
+    resolve parse_obj member s3 (id, g') = Ok p.
+Proof. exact reload_sees_storable. Qed.
 Print Assumptions C09_reload.
+
+(** ... a written stream (pending data, a dictionary of the storable domain whose /Length is the direct byte count)
+    to a stream with the same dictionary whose data, read from the saved bytes, is the data written. *)
+Theorem C09_reload_stream : forall member s tr s' tr' s3,
+  wf_st s -> save Serialize.ser s tr = Ok (s', tr', None) ->
+  changes s3 = [] -> backend s3 = backend s' -> start s3 = start s ->
+  (forall i, i < lenN (refs s') -> nthN (refs s3) i = nthN (refs s') i) ->
+  forall id d data g g', clookup (changes (save_pre s tr)) id = Some (PStreamData d data, g) ->
+    SerProofs.storable (PDict d) -> Spells.vdepth (PDict d) <= MAX_DEPTH ->
+    dict_get Parser.key_Length d = Some (PInt (Z.of_N (lenN data))) -> id < 2 ^ 64 -> g < 2 ^ 64 ->
+    exists st, resolve parse_obj member s3 (id, g') = Ok (PStream d id g st (lenN data)) /\
+               raw_data (backend s3) (PStream d id g st (lenN data)) = Some data.
+Proof. exact reload_sees_stream. Qed.
+Print Assumptions C09_reload_stream.
+
+(** The reload glue.  `startxref`: on a file that ends with the trailer save writes, locate_xref_offset finds the
+    offset written there (the last `startxref`, the digits after it). *)
+Theorem C09_locate_xref : forall pre xpos, locate_xref_offset (pre ++ startxref_tail xpos) = Ok xpos.
+Proof. exact locate_xref_offset_tail. Qed.
+Print Assumptions C09_locate_xref.
+
+(** "Reloaded table = saved table": FileOptions::load on the bytes of a successful save — locate the header and
+    `startxref`, parse the cross-reference stream object at that offset with the parser model, look up /Type /Size /W
+    /Index, decode the rows, merge the section into XRefTable::new(/Size), follow /Prev (absent) — succeeds, and the
+    loaded state is over the saved bytes, without pending changes, with the same header offset, and its table agrees
+    with the saved table on every saved entry.  This is the hypothesis about [s3] in C09_reload, C09_reload_stream and
+    C09_reload_untouched.  Side conditions: no /Prev in the trailer (an older revision may override compressed entries:
+    C02's finding), table and file below the u64 / MAX_ID limits, the state's header offset is the one
+    locate_start_offset finds. *)
+Theorem C09_load_table : forall read_classic s tr s' tr' c,
+  wf_st s -> save Serialize.ser s tr = Ok (s', tr', None) -> t_prev tr = None ->
+  lenN (refs s) < 999998 -> table_in_range (refs s') ->
+  Forall wf_bytes (t_id tr) -> fst (t_root tr) < 2 ^ 64 -> snd (t_root tr) < 2 ^ 64 ->
+  locate_start_offset (backend s') = Ok (start s) ->
+  exists s3 td, load parse_obj read_classic (backend s') c = Ok (s3, td) /\
+    changes s3 = [] /\ backend s3 = backend s' /\ start s3 = start s /\
+    (forall i, i < lenN (refs s') -> nthN (refs s3) i = nthN (refs s') i) /\
+    dget td k_Size = Some (PInt (Z.of_N (lenN (refs s) + 2))).
+Proof. exact load_saved. Qed.
+Print Assumptions C09_load_table.
 
 (** ... and every untouched directly stored object to its previous value. *)
 Theorem C09_reload_untouched : forall ser parse_obj member s tr s' tr' s3,
@@ -127,9 +183,9 @@ Theorem C09_wf_preserved : forall s,
   (forall old v s' r, update s old v = Ok (s', r) -> wf_st s').
 Proof.
   intros s H. split; [|split].
-  - intros v s' r E. exact (create_wf ser_prim s v s' r H E).
+  - intros v s' r E. exact (create_wf Serialize.ser s v s' r H E).
   - intros s' r E. exact (promise_wf s s' r H E).
-  - intros old v s' r E. first [exact (update_wf s old v s' r H E)|exact (update_wf ser_prim s old v s' r H E)].
+  - intros old v s' r E. first [exact (update_wf s old v s' r H E)|exact (update_wf Serialize.ser s old v s' r H E)].
 Qed.
 Print Assumptions C09_wf_preserved.
 
@@ -158,13 +214,13 @@ Proof.
   split; [intros i [H|[]]; subst; reflexivity|discriminate].
 Qed.
 Example C09_example_save :
-  match save ser_prim C09_example_state (mkTrailer 0 None (1, 0) None []) with
+  match save Serialize.ser C09_example_state (mkTrailer 0 None (1, 0) None []) with
   | Ok (s', _, None) => resolve parse_obj member_c (mkSt (refs s') [] (backend s') 0 [] false) (1, 5) = Ok (PDict [([65], PInt 7)])
   | _ => False
   end.
 Proof. vm_compute. reflexivity. Qed.
 Example C09_example_failed_save :
-  match save ser_prim (mkSt (refs C09_example_state) [(1, (PStream [] (SInFile 0 1), 0))] (backend C09_example_state) 0 [] false)
+  match save Serialize.ser (mkSt (refs C09_example_state) [(1, (PStream [] 1 0 0 1, 0))] (backend C09_example_state) 0 [] false)
              (mkTrailer 0 None (1, 0) None []) with
   | Ok (_, _, Some _) => True
   | _ => False
